@@ -433,9 +433,7 @@ func genCall(r *rand.Rand) c19Call {
 		n := r.IntN(4)
 		for i := 0; i < n; i++ {
 			typ := pick(r, []string{"application/json", "text/plain", "application/xml", "text/xml", "image/png", "application/x-yaml", "*/*", "application/jsonx", "text/html"})
-			if typ == "text/html" && first == "" {
-				typ = "image/webp" // never put text/html in front of a supported type (see DESIGN.md C19)
-			}
+			// text/html may stand anywhere: Auto has no HTML renderer, so it is not a supported type
 			if k, ok := supported[typ]; ok && first == "" {
 				first = k
 			}
@@ -503,11 +501,11 @@ func genCall(r *rand.Rand) c19Call {
 }
 
 func runC19(e *Env) {
-	e.Rule = "short histories (3..8 calls on one router, so that a failed encoding is followed by a successful one) of response helper calls: Context.Text/HTML/HTMLString/JSON/JSONBytes/JSONP/XML/Blob/Stream/NoContent/Redirect/HTTPError and pkg/render JSON/JSONIndented/JSONRenderer/JSONP/XML/XMLPretty/XMLRenderer/Text/HTML/Blob/Auto; statuses from {-1,0,100,...,599}; values: strings with HTML/unicode/control characters, nested maps, structs, byte slices and unencodable values (chan, func, NaN, map holding a channel); Stream readers with and without WriteTo, one-byte reads and a failing reader; preset or absent Content-Type; Accept lists with q-parameters, blanks, unsupported types (text/html never in front of a supported type). Oracle: recorded status == given (200 for <= 0), Content-Type == documented constant (or the preset one where the documentation says it is preserved), body decodes with an independent decoder to the given value, Auto renders the first supported type, encoding failures surface in c.Errors / the returned error and never panic. Non-trivial: every call; distinct by call description. Stream sources also include partly consumed strings/bytes readers and a SectionReader; an announced Content-Length must equal the delivered body length."
+	e.Rule = "short histories (3..8 calls on one router, so that a failed encoding is followed by a successful one) of response helper calls: Context.Text/HTML/HTMLString/JSON/JSONBytes/JSONP/XML/Blob/Stream/NoContent/Redirect/HTTPError and pkg/render JSON/JSONIndented/JSONRenderer/JSONP/XML/XMLPretty/XMLRenderer/Text/HTML/Blob/Auto; statuses from {-1,0,100,...,599}; values: strings with HTML/unicode/control characters, nested maps, structs, byte slices and unencodable values (chan, func, NaN, map holding a channel); Stream readers with and without WriteTo, one-byte reads and a failing reader; preset or absent Content-Type; Accept lists with q-parameters, blanks, unsupported types (incl. text/html, for which Auto has no renderer, anywhere in the list). Oracle: recorded status == given (200 for <= 0), Content-Type == documented constant (or the preset one where the documentation says it is preserved), body decodes with an independent decoder to the given value, Auto renders the first supported type, encoding failures surface in c.Errors / the returned error and never panic. Non-trivial: every call; distinct by call description. Stream sources also include partly consumed strings/bytes readers and a SectionReader; an announced Content-Length must equal the delivered body length."
 	e.Assumptions = []string{
 		"values compared after decoding with encoding/json / encoding/xml (numbers as float64)",
 		"XML strings restricted to characters XML can carry",
-		"text/html is never generated in front of a supported type in Accept lists: the statement does not say whether HTML counts as supported",
+		"text/html counts as not supported by render.Auto (it has no HTML renderer): a supported type listed behind it is picked",
 	}
 	e.RunCases("histories", e.N(20000, 4000000), 0, func(t *T) {
 		r := t.R
